@@ -1087,6 +1087,42 @@ func emitKex(g *hx.Gen, m string, hk, mode, t string, extra string) {
 	if t != "-" {
 		g.Stat("tampered")
 	}
+	// clause-level input classes (see conf "clauses")
+	kind := methodByName(m).kind
+	ex := hx.Parse("x" + extra)
+	switch {
+	case mode == "rr":
+		g.Stat("agree." + kind) // same H and K on both real sides
+		if strings.Contains(hk, "-cert-") {
+			g.Stat("hostkey.cert")
+		} else {
+			g.Stat("hostkey.plain")
+		}
+		if st := ex.Str("st"); st != "" {
+			g.Stat("siggate." + st)
+		}
+		if ex.Str("mm") != "-" {
+			g.Stat("transcript.magics-differ")
+		}
+	case isPkt(t):
+		g.Stat("packet-level." + t)
+	case t == "-" && ex.Has("gp") && (ex.Str("gp") != "g14" || ex.Str("gg") != "2"):
+		g.Stat("gex.client.group." + ex.Str("gp") + "." + ex.Str("gg"))
+	case t == "-" && ex.Has("mn"):
+		g.Stat("gex.server.request")
+	case t == "-" || t == "nonmin" || t == "hibit" || t == "x:hibit":
+		g.Stat("agree-with-stdlib-peer." + kind)
+	case kind == "dh" || kind == "gex":
+		g.Stat("invalid.dh-value." + t)
+	case kind == "ecdh":
+		g.Stat("invalid.ec-point." + t)
+	case kind == "c25519" || strings.HasPrefix(t, "x:"):
+		g.Stat("invalid.x25519." + strings.TrimPrefix(t, "x:"))
+	case mode == "pc":
+		g.Stat("invalid.mlkem-ciphertext." + t)
+	default:
+		g.Stat("invalid.mlkem-encapsulation-key." + t)
+	}
 }
 
 func gen(g *hx.Gen) {
